@@ -4,7 +4,7 @@ From Coq Require Import NArith Bool List Lia.
 Import ListNotations.
 Open Scope N_scope.
 
-Lemma find_step lo sh : is_find lo = true -> snd (tstep lo sh) = sh /\ is_find (fst (tstep lo sh)) = true.
+Lemma find_step cas lo sh : is_find lo = true -> snd (tstep cas lo sh) = sh /\ is_find (fst (tstep cas lo sh)) = true.
 Proof.
   destruct lo; cbn; try discriminate; intros _.
   - destruct (tci sh x); split; reflexivity.
@@ -12,14 +12,14 @@ Proof.
   - split; reflexivity.
 Qed.
 
-Lemma nonfind_step lo sh : is_find lo = false -> is_find (fst (tstep lo sh)) = false.
+Lemma nonfind_step cas lo sh : is_find lo = false -> is_find (fst (tstep cas lo sh)) = false.
 Proof.
   destruct lo; cbn; try discriminate; intros _; try reflexivity.
   - destruct (ctl && (0 <? x)); reflexivity.
-  - destruct (tcs sh c) as [[[x n] ctl]|]; [destruct (ctl && (0 <? x))|]; reflexivity.
+  - destruct (tcs sh c) as [[[x n] ctl]|]; [destruct (ctl && (0 <? x)); [destruct cas|]|]; reflexivity.
   - destruct (opt_eqb (tci sh x) c); reflexivity.
   - destruct (tcs sh c); reflexivity.
-  - destruct (indexed r); reflexivity.
+  - destruct (indexed r); [destruct cas|]; reflexivity.
   - destruct (opt_eqb (tci sh x) c); reflexivity.
 Qed.
 
@@ -30,36 +30,36 @@ Lemma nth_error_map' {A B} (f : A -> B) l i : nth_error (map f l) i = option_map
 Proof. revert i. induction l as [|h t IH]; intros [|j]; cbn; auto. Qed.
 
 (* running or not running the lookups makes no difference to anything else, step by step ... *)
-Lemma without_lookups_step s i :
-  without_lookups (sys_step tstore tprog tstep s i) = sys_step tstore tprog tstep (without_lookups s) i.
+Lemma without_lookups_step cas s i :
+  without_lookups (sys_step tstore tprog (tstep cas) s i) = sys_step tstore tprog (tstep cas) (without_lookups s) i.
 Proof.
   destruct s as [sh ls]. unfold sys_step, without_lookups. cbn [fst snd].
   rewrite nth_error_map'. destruct (nth_error ls i) as [lo|] eqn:E; cbn [option_map]; [|reflexivity].
   destruct (is_find lo) eqn:Ef.
-  - destruct (find_step lo sh Ef) as [Hs Hf].
+  - destruct (find_step cas lo sh Ef) as [Hs Hf].
     assert (Hm : mask_find lo = TFindDone TAbsent) by (unfold mask_find; rewrite Ef; reflexivity).
     rewrite Hm. cbn [tstep].
-    destruct (tstep lo sh) as [lo' sh'] eqn:Et. cbn [fst snd] in *. subst sh'.
+    destruct (tstep cas lo sh) as [lo' sh'] eqn:Et. cbn [fst snd] in *. subst sh'.
     assert (Hm' : mask_find lo' = TFindDone TAbsent) by (unfold mask_find; rewrite Hf; reflexivity).
     rewrite map_upd_nth, Hm'. reflexivity.
-  - pose proof (nonfind_step lo sh Ef) as Hf.
+  - pose proof (nonfind_step cas lo sh Ef) as Hf.
     assert (Hm : mask_find lo = lo) by (unfold mask_find; rewrite Ef; reflexivity).
     rewrite Hm.
-    destruct (tstep lo sh) as [lo' sh'] eqn:Et. cbn [fst snd] in *.
+    destruct (tstep cas lo sh) as [lo' sh'] eqn:Et. cbn [fst snd] in *.
     assert (Hm' : mask_find lo' = lo') by (unfold mask_find; rewrite Hf; reflexivity).
     rewrite map_upd_nth, Hm'. reflexivity.
 Qed.
 
 (* ... hence for every schedule *)
-Lemma without_lookups_run sched : forall s, without_lookups (trun s sched) = trun (without_lookups s) sched.
+Lemma without_lookups_run cas sched : forall s, without_lookups (trun cas s sched) = trun cas (without_lookups s) sched.
 Proof.
   induction sched as [|i rest IH]; intro s; [reflexivity|].
-  change (trun s (i :: rest)) with (trun (sys_step tstore tprog tstep s i) rest).
-  change (trun (without_lookups s) (i :: rest)) with (trun (sys_step tstore tprog tstep (without_lookups s) i) rest).
+  change (trun cas s (i :: rest)) with (trun cas (sys_step tstore tprog (tstep cas) s i) rest).
+  change (trun cas (without_lookups s) (i :: rest)) with (trun cas (sys_step tstore tprog (tstep cas) (without_lookups s) i) rest).
   rewrite IH, without_lookups_step. reflexivity.
 Qed.
 
-Lemma lookups_do_not_disturb sched s : fst (trun s sched) = fst (trun (without_lookups s) sched).
+Lemma lookups_do_not_disturb cas sched s : fst (trun cas s sched) = fst (trun cas (without_lookups s) sched).
 Proof. rewrite <- without_lookups_run. reflexivity. Qed.
 
 (* "only registered (node, connection) pairs are ever returned", for every schedule *)
@@ -76,13 +76,13 @@ Proof.
   unfold tupd. destruct (N.eqb_spec k' k) as [E|E]; intro H; [left; split; assumption|right; exact H].
 Qed.
 
-Lemma sys_ok_step P s i : sys_ok P s -> sys_ok P (sys_step tstore tprog tstep s i).
+Lemma sys_ok_step cas P s i : sys_ok P s -> sys_ok P (sys_step tstore tprog (tstep cas) s i).
 Proof.
   intros [Hst Hls]. destruct s as [sh ls]. unfold sys_step. cbn [fst snd] in *.
   destruct (nth_error ls i) as [lo|] eqn:E; [|split; assumption].
   assert (Hlo : prog_ok P lo).
   { apply (proj1 (Forall_forall _ _) Hls). apply (nth_error_In _ _ E). }
-  assert (Goal : store_ok P (snd (tstep lo sh)) /\ prog_ok P (fst (tstep lo sh))).
+  assert (Goal : store_ok P (snd (tstep cas lo sh)) /\ prog_ok P (fst (tstep cas lo sh))).
   { destruct lo; cbn [tstep fst snd prog_ok] in *.
     - split; [exact Hst|]. destruct (tci sh x); exact I.
     - split; [exact Hst|]. destruct (tcs sh c) as [[[x n] ctl]|] eqn:Ec; [|exact I].
@@ -94,9 +94,10 @@ Proof.
         * apply Hst. exact Hv.
       + destruct (indexed (x, n, ctl)); exact I.
     - split; [|exact I]. intros c' r Hr. apply Hst. exact Hr.
-    - split; [exact Hst|]. destruct (tcs sh c) as [[[x n] ctl]|]; [destruct (indexed (x, n, ctl))|]; exact I.
+    - split; [exact Hst|]. destruct (tcs sh c) as [[[x n] ctl]|]; [destruct (indexed (x, n, ctl)); [destruct cas|]|]; exact I.
     - split; [exact Hst|]. destruct (opt_eqb (tci sh x) c); exact I.
     - split; [|exact I]. intros c' r Hr. apply Hst. exact Hr.
+    - split; [|exact I]. destruct (opt_eqb (tci sh x) c); [|exact Hst]. intros c' r Hr. apply Hst. exact Hr.
     - split; [|exact I]. intros c' r Hr. cbn [tcs] in Hr.
       destruct (tupd_cases _ _ _ _ _ Hr) as [[_ Hv]|Hv]; [discriminate|apply Hst; exact Hv].
     - split; [exact Hst|]. destruct (tcs sh c) as [r|] eqn:Ec; [|exact I]. cbn. apply Hst. exact Ec.
@@ -104,39 +105,40 @@ Proof.
       + intros c' r' Hr. cbn [tcs] in Hr. destruct (tupd_cases _ _ _ _ _ Hr) as [[-> Hv]|Hv].
         * injection Hv as <-. exact Hlo.
         * apply Hst. exact Hv.
-      + destruct (indexed r); exact I.
+      + destruct (indexed r); [destruct cas|]; exact I.
     - split; [exact Hst|]. destruct (opt_eqb (tci sh x) c); exact I.
     - split; [|exact I]. intros c' r Hr. apply Hst. exact Hr.
+    - split; [|exact I]. destruct (opt_eqb (tci sh x) c); [|exact Hst]. intros c' r Hr. apply Hst. exact Hr.
     - split; [exact Hst|exact I]. }
-  destruct (tstep lo sh) as [lo' sh']. cbn [fst snd] in *. destruct Goal as [G1 G2].
+  destruct (tstep cas lo sh) as [lo' sh']. cbn [fst snd] in *. destruct Goal as [G1 G2].
   split; [exact G1|]. apply Forall_upd_nth; assumption.
 Qed.
 
-Lemma sys_ok_run P sched s : sys_ok P s -> sys_ok P (trun s sched).
+Lemma sys_ok_run cas P sched s : sys_ok P s -> sys_ok P (trun cas s sched).
 Proof.
   intro H. unfold trun.
-  apply (inv_all_schedules tstore tprog tstep (sys_ok P)); [|exact H].
+  apply (inv_all_schedules tstore tprog (tstep cas) (sys_ok P)); [|exact H].
   intros s' i Hs. apply sys_ok_step. exact Hs.
 Qed.
 
-Lemma lookup_answers_registered P sched s i n c :
-  sys_ok P s -> nth_error (snd (trun s sched)) i = Some (TFindDone (TFound n c)) -> exists x ctl, P c (x, n, ctl).
+Lemma lookup_answers_registered cas P sched s i n c :
+  sys_ok P s -> nth_error (snd (trun cas s sched)) i = Some (TFindDone (TFound n c)) -> exists x ctl, P c (x, n, ctl).
 Proof.
-  intros H E. destruct (sys_ok_run P sched s H) as [_ Hls].
+  intros H E. destruct (sys_ok_run cas P sched s H) as [_ Hls].
   apply (proj1 (Forall_forall _ _) Hls _ (nth_error_In _ _ E)).
 Qed.
 
 (* ---- the residual read-then-write windows of the repaired code: witnesses, and "exactly that region" ---- *)
 Lemma unregister_window_refuted :
-  exists sched, all_done (trun unregister_window sched) = true /\
-                tfind (fst (trun unregister_window sched)) 7 = TAbsent /\
-                tcs (fst (trun unregister_window sched)) 2 = Some (7, 2, true).
+  exists sched, all_done (trun false unregister_window sched) = true /\
+                tfind (fst (trun false unregister_window sched)) 7 = TAbsent /\
+                tcs (fst (trun false unregister_window sched)) 2 = Some (7, 2, true).
 Proof. exists [0;0;1;1;0;0]%nat. vm_compute. repeat split; reflexivity. Qed.
 
 Lemma refresh_window_refuted :
-  exists sched, all_done (trun refresh_window sched) = true /\
-                tfind (fst (trun refresh_window sched)) 7 = TFound 1 1 /\
-                tcs (fst (trun refresh_window sched)) 2 = Some (7, 2, true).
+  exists sched, all_done (trun false refresh_window sched) = true /\
+                tfind (fst (trun false refresh_window sched)) 7 = TFound 1 1 /\
+                tcs (fst (trun false refresh_window sched)) 2 = Some (7, 2, true).
 Proof. exists [0;0;0;1;1;0]%nat. vm_compute. repeat split; reflexivity. Qed.
 
 Definition tres_eqb (a b : tres) : bool :=
@@ -149,14 +151,14 @@ Definition tres_eqb (a b : tres) : bool :=
 (* of the 15 interleavings of UnregisterConnection(old) with RegisterConnection(new), the lookup ends wrong exactly when the
    new index write falls between the old node's index read and its index delete *)
 Lemma unregister_window_exact :
-  forallb (fun sched => tres_eqb (tfind (fst (trun unregister_window sched)) 7)
+  forallb (fun sched => tres_eqb (tfind (fst (trun false unregister_window sched)) 7)
                                  (if second_of_1_after 2 sched 0 0 then TAbsent else TFound 2 2))
           (interleave 4 2) = true /\ length (interleave 4 2) = 15%nat.
 Proof. split; vm_compute; reflexivity. Qed.
 
 (* same for RefreshConnection(old): exactly when the new index write falls between its index read and its index write *)
 Lemma refresh_window_exact :
-  forallb (fun sched => tres_eqb (tfind (fst (trun refresh_window sched)) 7)
+  forallb (fun sched => tres_eqb (tfind (fst (trun false refresh_window sched)) 7)
                                  (if second_of_1_after 3 sched 0 0 then TFound 1 1 else TFound 2 2))
           (interleave 4 2) = true /\ length (interleave 4 2) = 15%nat.
 Proof. split; vm_compute; reflexivity. Qed.
@@ -170,4 +172,204 @@ Proof.
     destruct (tupd_cases _ _ _ _ _ H) as [[-> Hv]|Hv]; [|discriminate].
     injection Hv as <-. left. split; reflexivity. }
   split; (split; [exact Hst|]); repeat constructor; cbn; try exact I; right; split; reflexivity.
+Qed.
+
+(* ---------------------------------------------------------------------------------------------
+   the repaired code (cas = true): X's registration on (B, new) survives EVERY schedule
+   --------------------------------------------------------------------------------------------- *)
+Section Stable.
+  Variables X B new : N.
+  Hypothesis HX : (0 <? X) = true.
+  Notation R := (X, B, true).
+
+  Lemma indexed_R : indexed R = true.
+  Proof. cbn. exact HX. Qed.
+
+  Lemma tupd_same {A} (f : N -> option A) k v : tupd f k v k = v.
+  Proof. unfold tupd. rewrite N.eqb_refl. reflexivity. Qed.
+  Lemma tupd_other {A} (f : N -> option A) k k' v : k' <> k -> tupd f k v k' = f k'.
+  Proof. intro H. unfold tupd. apply N.eqb_neq in H. rewrite H. reflexivity. Qed.
+
+  Lemma opt_eqb_true o c : opt_eqb o c = true -> o = Some c.
+  Proof. destruct o as [c'|]; cbn; [|discriminate]. intro H. apply N.eqb_eq in H. subst. reflexivity. Qed.
+
+  (* one storage call of one safe invocation *)
+  Lemma safe_step lo sh :
+    safe_prog X B new lo ->
+    (tcs sh new = None \/ tcs sh new = Some R) ->
+    let lo' := fst (tstep true lo sh) in let sh' := snd (tstep true lo sh) in
+    safe_prog X B new lo'
+    /\ (tcs sh' new = None \/ tcs sh' new = Some R)
+    /\ (tcs sh new = Some R -> tcs sh' new = Some R)
+    /\ (established X B new sh -> established X B new sh').
+  Proof.
+    intros Hs HA. destruct lo; cbn [tstep fst snd safe_prog] in *; try contradiction.
+    - (* TFind *) destruct (tci sh x); cbn; auto.
+    - (* TFind2 *) destruct (tcs sh c) as [[[x n] ctl]|]; cbn; auto.
+    - (* TFindDone *) auto.
+    - (* TReg *)
+      assert (Hnew : c = new -> (x, n, ctl) = R).
+      { intro E. destruct (Hs (or_introl E)) as [-> [_ [-> ->]]]. reflexivity. }
+      split; [|split; [|split]].
+      + destruct (indexed (x, n, ctl)) eqn:Ei; cbn [safe_prog]; [|exact I].
+        intros [E|E].
+        * destruct (Hs (or_introl E)) as [_ [-> [-> _]]]. split; reflexivity.
+        * destruct (Hs (or_intror (conj E eq_refl))) as [_ [-> [-> _]]]. split; reflexivity.
+      + cbn [tcs]. destruct (N.eq_dec new c) as [E|E].
+        * subst c. rewrite tupd_same. right. rewrite (Hnew eq_refl). reflexivity.
+        * rewrite tupd_other; [exact HA|exact E].
+      + cbn [tcs]. intro H. destruct (N.eq_dec new c) as [E|E].
+        * subst c. rewrite tupd_same. rewrite (Hnew eq_refl). reflexivity.
+        * rewrite tupd_other; [exact H|exact E].
+      + intros [H1 H2]. split; cbn [tci tcs]; [exact H1|].
+        destruct (N.eq_dec new c) as [E|E].
+        * subst c. rewrite tupd_same. rewrite (Hnew eq_refl). reflexivity.
+        * rewrite tupd_other; [exact H2|exact E].
+    - (* TReg2 *)
+      split; [exact I|]. split; [exact HA|]. split; [auto|].
+      intros [H1 H2]. split; cbn [tci tcs]; [|exact H2].
+      destruct (N.eq_dec X x) as [E|E].
+      + subst x. rewrite tupd_same. destruct (Hs (or_intror eq_refl)) as [-> _]. reflexivity.
+      + rewrite tupd_other; [exact H1|exact E].
+    - (* TUnreg *)
+      split; [|split; [exact HA|split; auto]].
+      destruct (tcs sh c) as [[[x n] ctl]|]; [destruct (indexed (x, n, ctl))|]; cbn [safe_prog]; exact Hs.
+    - (* TUnregC *)
+      split; [exact Hs|].
+      destruct (opt_eqb (tci sh x) c) eqn:Eo; [|split; [exact HA|split; auto]].
+      cbn [tcs tci]. split; [exact HA|]. split; [auto|].
+      intros [H1 H2]. split; [|exact H2]. cbn [tci].
+      destruct (N.eq_dec X x) as [E|E].
+      + subst x. apply opt_eqb_true in Eo. rewrite H1 in Eo. injection Eo as Eo. congruence.
+      + rewrite tupd_other; [exact H1|exact E].
+    - (* TUnreg4 *)
+      split; [exact I|]. cbn [tcs tci].
+      assert (E : tupd (tcs sh) c None new = tcs sh new) by (apply tupd_other; congruence).
+      rewrite E. split; [exact HA|]. split; [auto|]. intros [H1 H2]. split; [exact H1|]. cbn [tcs]. rewrite E. exact H2.
+    - (* TRefresh *)
+      split; [|split; [exact HA|split; auto]].
+      destruct (tcs sh c) as [r|] eqn:Ec; cbn [safe_prog]; [|exact I].
+      intro E. subst c. destruct HA as [HA|HA]; rewrite HA in Ec; [discriminate|]. injection Ec as <-. reflexivity.
+    - (* TRefresh2 *)
+      split; [destruct (indexed r); exact I|]. cbn [tcs tci].
+      destruct (N.eq_dec new c) as [E|E].
+      + subst c. rewrite tupd_same, (Hs eq_refl). split; [right; reflexivity|]. split; [reflexivity|].
+        intros [H1 H2]. split; [exact H1|]. cbn [tcs]. rewrite tupd_same. reflexivity.
+      + assert (E' : tupd (tcs sh) c (Some r) new = tcs sh new) by (apply tupd_other; exact E).
+        rewrite E'. split; [exact HA|]. split; [auto|]. intros [H1 H2]. split; [exact H1|]. cbn [tcs]. rewrite E'. exact H2.
+    - (* TRefreshC *)
+      split; [exact I|].
+      destruct (opt_eqb (tci sh x) c) eqn:Eo; [|split; [exact HA|split; auto]].
+      cbn [tcs tci]. split; [exact HA|]. split; [auto|].
+      intros [H1 H2]. split; [|exact H2]. cbn [tci].
+      destruct (N.eq_dec X x) as [E|E].
+      + subst x. rewrite tupd_same. apply opt_eqb_true in Eo. rewrite <- Eo. exact H1.
+      + rewrite tupd_other; [exact H1|exact E].
+    - (* TDone *) auto.
+  Qed.
+
+  Lemma reg_inv_step i0 s i : reg_inv X B new i0 s -> reg_inv X B new i0 (sys_step tstore tprog (tstep true) s i).
+  Proof.
+    intros [HF [HA HM]]. destruct s as [sh ls]. unfold sys_step. cbn [fst snd] in *.
+    destruct (nth_error ls i) as [lo|] eqn:E; [|split; [exact HF|split; assumption]].
+    assert (Hlo : safe_prog X B new lo).
+    { apply (proj1 (Forall_forall _ _) HF). apply (nth_error_In _ _ E). }
+    pose proof (safe_step lo sh Hlo HA) as Hstep. cbn zeta in Hstep.
+    destruct (tstep true lo sh) as [lo' sh'] eqn:Et. cbn [fst snd] in *.
+    destruct Hstep as [S1 [S2 [S3 S4]]].
+    split; [apply Forall_upd_nth; assumption|]. split; [exact S2|]. cbn [fst snd].
+    destruct (Nat.eq_dec i i0) as [Ei|Ei].
+    - subst i. rewrite E in HM.
+      rewrite nth_error_upd_nth_same; [|apply nth_error_Some; rewrite E; discriminate].
+      destruct lo; try contradiction.
+      + destruct HM as [-> [-> [-> ->]]]. cbn [tstep] in Et. rewrite indexed_R in Et.
+        injection Et as <- <-. split; [reflexivity|]. split; [reflexivity|]. cbn [tcs]. apply tupd_same.
+      + destruct HM as [-> [-> HR]]. cbn [tstep] in Et. injection Et as <- <-.
+        split; cbn [tci tcs]; [apply tupd_same|exact HR].
+      + cbn [tstep] in Et. injection Et as <- <-. exact HM.
+    - rewrite nth_error_upd_nth_other; [|exact Ei].
+      destruct (nth_error ls i0) as [l0|]; [|contradiction].
+      destruct l0; try contradiction.
+      + exact HM.
+      + destruct HM as [H1 [H2 H3]]. split; [exact H1|]. split; [exact H2|]. apply S3. exact H3.
+      + apply S4. exact HM.
+  Qed.
+
+  Lemma reg_inv_run i0 sched s : reg_inv X B new i0 s -> reg_inv X B new i0 (trun true s sched).
+  Proof.
+    intro H. unfold trun.
+    apply (inv_all_schedules tstore tprog (tstep true) (reg_inv X B new i0)); [|exact H].
+    intros s' i Hs. apply reg_inv_step. exact Hs.
+  Qed.
+
+  Lemma established_tfind sh : established X B new sh -> tfind sh X = TFound B new.
+  Proof. intros [H1 H2]. unfold tfind. rewrite H1, H2. reflexivity. Qed.
+
+  (* once RegisterConnection(B, new, X) has returned, the lookup answers (B, new) — under every schedule of everything else *)
+  Lemma registration_survives i0 sched s :
+    reg_inv X B new i0 s ->
+    nth_error (snd (trun true s sched)) i0 = Some TDone ->
+    established X B new (fst (trun true s sched)) /\ tfind (fst (trun true s sched)) X = TFound B new.
+  Proof.
+    intros H E. destruct (reg_inv_run i0 sched s H) as [_ [_ HM]]. rewrite E in HM.
+    split; [exact HM|apply established_tfind; exact HM].
+  Qed.
+
+  (* a lookup of X started after that never misses and never names another connection, whatever runs concurrently *)
+  Lemma lookup_inv_step i0 j s i :
+    lookup_inv X B new i0 j s -> lookup_inv X B new i0 j (sys_step tstore tprog (tstep true) s i).
+  Proof.
+    intros [HR [HD HJ]].
+    pose proof (reg_inv_step i0 s i HR) as HR'.
+    assert (Hest : established X B new (fst s)).
+    { destruct HR as [_ [_ HM]]. rewrite HD in HM. exact HM. }
+    destruct s as [sh ls]. unfold sys_step in *. cbn [fst snd] in *.
+    destruct (nth_error ls i) as [lo|] eqn:E; [|split; [exact HR'|split; assumption]].
+    destruct (tstep true lo sh) as [lo' sh'] eqn:Et. cbn [fst snd] in *.
+    split; [exact HR'|].
+    assert (HD' : nth_error (upd_nth i lo' ls) i0 = Some TDone).
+    { destruct (Nat.eq_dec i i0) as [Ei|Ei].
+      - subst i. rewrite E in HD. injection HD as ->. cbn [tstep] in Et. injection Et as <- <-.
+        apply nth_error_upd_nth_same. apply nth_error_Some. rewrite E. discriminate.
+      - rewrite nth_error_upd_nth_other; [exact HD|exact Ei]. }
+    split; [exact HD'|]. cbn [fst snd].
+    destruct (Nat.eq_dec i j) as [Ej|Ej].
+    - subst i. rewrite E in HJ.
+      rewrite nth_error_upd_nth_same; [|apply nth_error_Some; rewrite E; discriminate].
+      destruct Hest as [H1 H2].
+      destruct lo; try contradiction; cbn [tstep] in Et.
+      + subst x. rewrite H1 in Et. injection Et as <- _. reflexivity.
+      + subst c. rewrite H2 in Et. injection Et as <- _. reflexivity.
+      + injection Et as <- _. exact HJ.
+    - rewrite nth_error_upd_nth_other; [exact HJ|exact Ej].
+  Qed.
+
+  Lemma lookup_after_registration i0 j sched s r :
+    lookup_inv X B new i0 j s ->
+    nth_error (snd (trun true s sched)) j = Some (TFindDone r) -> r = TFound B new.
+  Proof.
+    intros H E.
+    assert (HI : lookup_inv X B new i0 j (trun true s sched)).
+    { unfold trun. apply (inv_all_schedules tstore tprog (tstep true) (lookup_inv X B new i0 j)); [|exact H].
+      intros s' i Hs. apply lookup_inv_step. exact Hs. }
+    destruct HI as [_ [_ HJ]]. rewrite E in HJ. exact HJ.
+  Qed.
+End Stable.
+
+(* the two windows are closed in the repaired code: all 15 interleavings of each end with the lookup at (2, 2) *)
+Lemma cas_windows_closed :
+  forallb (fun sched => tres_eqb (tfind (fst (trun true unregister_window sched)) 7) (TFound 2 2)) (interleave 3 2) = true /\
+  forallb (fun sched => tres_eqb (tfind (fst (trun true refresh_window sched)) 7) (TFound 2 2)) (interleave 3 2) = true.
+Proof. split; vm_compute; reflexivity. Qed.
+
+(* non-vacuity of reg_inv: the old node's late cleanup, a stale heartbeat on the old connection, a lookup and the new
+   registration, client 7 moving from (1, 1) to (2, 2); RegisterConnection is thread 2 *)
+Definition moving_system : tstate := (window_store, [TUnreg 1; TRefresh 1; TReg 2 2 7 true; TFind 7]).
+Lemma moving_system_reg_inv : reg_inv 7 2 2 2 moving_system.
+Proof.
+  split; [|split].
+  - apply Forall_cons; [cbn; discriminate|]. apply Forall_cons; [exact I|].
+    apply Forall_cons; [cbn; intros _; repeat split; reflexivity|]. apply Forall_cons; [exact I|]. apply Forall_nil.
+  - left. reflexivity.
+  - cbn. repeat split; reflexivity.
 Qed.
